@@ -281,13 +281,17 @@ def check_driver(db, rep):
                     bad = 'driver applied %d times' % len(ap)
                 elif adaptive and not (ap[0][0] == 'apply' and ap[0][2].equals(it.to_poly(t0) + dt) and ap[0][3].region is sysreg and ap[0][3].off == 0):
                     bad = 'adaptive stepping must integrate the stored state from t to t+dt (got %s)' % (ap[0],)
-                elif not adaptive and not (ap[0][0] == 'apply_fixed_step' and (ap[0][2] * it.to_poly(ap[0][3])).equals(dt) and ap[0][4].region is sysreg):
+                elif not adaptive and not (ap[0][0] == 'apply_fixed_step' and same(sm.ite_apply(ap[0][2], lambda h: h * it.to_poly(ap[0][3])), dt) and ap[0][4].region is sysreg):
                     bad = 'fixed stepping must cover dt in nsteps steps (got %s)' % (ap[0],)
             if not bad:
                 if 'free' not in kinds:
                     bad = 'driver never freed'
                 elif kinds.index('free') < max(i for i, k in enumerate(kinds) if k in ('apply', 'apply_fixed_step')):
                     bad = 'driver freed before use'
+            if not bad and status != 0 and threw is not None:
+                tt = sm.field(this, 't')
+                if not (isinstance(tt, Poly) and tt.equals(Poly.var('t_reached'))):
+                    bad = 'after a failed integration the clock is %s, not the time the driver reached (the state was integrated up to there only)' % tt
             if not bad:
                 if status != 0 and threw is None:
                     bad = 'integration failure not reported'
@@ -352,3 +356,4 @@ def run(db, rep, tier):
     check_enablement(db, rep)
     import c10
     c10.check_sized_ctor(db, rep)  # the integration starts from the initial time the solver was constructed with
+    c10.check_moves(db, rep)       # ... and a moved solver carries on with the clock, switches and views of the source
